@@ -20,7 +20,7 @@ HB_CLIENTS = [
     ("hb-deferred", "deferred", False, 2, 400, 10000),
     # components built on other branches: one line each once their client exists, e.g.
     ("hb-lr", "lr", False, 2, 400, 10000),
-    # ("hb-cow", "cow", False, 2, 400, 10000),
+    ("hb-cow", "cow", True, 2, 400, 10000),     # tap: the plain accesses of m_data's two shared_ptr copies are checked too
     # ("hb-rcu", "rcu", True, 2, 400, 10000),
     ("hb-trigger", "trigger", False, 2, 400, 10000),
     ("hb-dd", "dd", False, 2, 400, 10000),
